@@ -40,6 +40,8 @@ def to_scenario(sid, hist):
             st = dict(st)
             st["room"] = "R2"
         steps.append(st)
+    # announcements are asynchronous: two quiet observations at the end
+    steps += [{"op": "idle", "p": "p1"}, {"op": "idle", "p": "p1"}]
     return {"sid": sid, "peers": peers, "users": {p: "u1" for p in peers}, "steps": steps, "hist": hist, "events": True}
 
 
